@@ -42,8 +42,14 @@ def run_task(task):
         cross_fn = getattr(mod, task.get('crosscheck', 'crosscheck'), None) if task.get('cross', True) else None
         stats = res
         replayed = {}
-        for r in explore(run, max_paths=task.get('max_paths', 400000)):
+        budget = float(os.environ.get('VF_TASK_BUDGET_S', task.get('budget_s', 600)))
+        for r in explore(run, max_paths=task.get('max_paths', 400000), part=task.get('part')):
             res['paths'] += 1
+            if time.time() - t0 > budget:
+                # a unit whose paths multiply beyond reach (e.g. value comparisons of whole parameters inside a search):
+                # undecided, never a verdict
+                res['limits'].append('task budget of %ds exhausted after %d paths in %s %r' % (budget, res['paths'], task['module'], task['args']))
+                break
             res['solver_calls'] += r.ctx.n_solver_calls
             oc = r.outcome
             if oc == 'raise':
@@ -152,6 +158,8 @@ def run_pool(tasks, nproc=None, progress=False):
     nproc = int(os.environ.get('VF_PROCS', nproc))
     if nproc <= 1 or len(tasks) <= 1:
         return [run_task(t) for t in tasks]
+    # tasks known to be long start first (only the schedule changes; imap_unordered returns every result)
+    tasks = sorted(tasks, key=lambda t: -t.get('weight', 0))
     ctx = multiprocessing.get_context('fork')
     with ctx.Pool(nproc, maxtasksperchild=50) as pool:
         out = []
